@@ -508,6 +508,8 @@ func (r *realP) topo(down, def bool, target string) string {
 // ---------------- real store driver ----------------
 
 type store struct {
+	retargetProbes   int
+	retargetAccepted string
 	writes int
 	r    *fsmkit.Replica
 	fl   string
@@ -621,6 +623,32 @@ func (st *store) put(i ixn) string {
 		x := apiIntention(i)
 		opv := structs.IntentionOpUpdate
 		id, ok := st.ids[sl]
+		if ok && st.seq%3 == 0 {
+			// probe: an update that would move ANOTHER intention (its ID) onto this pair, which is already owned
+			// by `id`. The table keeps one intention per (source, destination); the write has to be refused,
+			// otherwise two intentions of equal precedence decide the pair by storage order.
+			var others []string
+			for sl2, id2 := range st.ids {
+				if sl2 != sl {
+					others = append(others, id2)
+				}
+			}
+			sort.Strings(others)
+			if len(others) > 0 {
+				y := apiIntention(i)
+				y.ID = others[st.seq%len(others)]
+				if y.Action == structs.IntentionActionAllow {
+					y.Action = structs.IntentionActionDeny
+				} else {
+					y.Action = structs.IntentionActionAllow
+				}
+				y.CreatedAt, y.UpdatedAt = stamp(st.seq), stamp(st.seq)
+				st.retargetProbes++
+				if e := errOf(st.apply(structs.IntentionRequestType, &structs.IntentionRequest{Op: structs.IntentionOpUpdate, Intention: y})); e == "" {
+					st.retargetAccepted = fmt.Sprintf("update of intention %s to the pair %s -> %s, which intention %s already owns, was accepted", y.ID, i.Src, i.Dst, id)
+				}
+			}
+		}
 		if !ok {
 			id, opv = st.newID(), structs.IntentionOpCreate
 		}
@@ -969,6 +997,15 @@ func applyOp(run *core.Run, st *store, m model, o op, done []op) (ok, peerDefect
 		delete(m, o.I.slot())
 	}
 	run.Count("writes")
+	if st.retargetProbes > 0 {
+		run.CountN("legacy-retarget-probes", st.retargetProbes)
+		st.retargetProbes = 0
+	}
+	if st.retargetAccepted != "" {
+		run.Violation("C13:legacy:update-onto-existing-pair-accepted", fmt.Sprintf("[legacy] %s; history=%s", st.retargetAccepted, core.JSON(append(append([]op{}, done...), o))), map[string]any{"flavor": st.fl, "history": append(append([]op{}, done...), o), "what": st.retargetAccepted})
+		st.retargetAccepted = ""
+		return false, false
+	}
 	how := st.fl
 	if st.fl == flCfg {
 		how += []string{"-mutation", "-entry"}[o.I.Mode]
@@ -997,6 +1034,11 @@ func applyOp(run *core.Run, st *store, m model, o op, done []op) (ok, peerDefect
 	cov := &coverage{}
 	want := refP{m: m, cfg: st.fl != flLegacy, cov: cov}.list()
 	got := newRealP(st.r.State()).list()
+	if bad, mixed := filteredListOrder(st.r.State()); bad != "" {
+		run.Violation(fmt.Sprintf("C13:%s:list:acl-filtered-list-not-in-precedence-order", st.fl), fmt.Sprintf("[%s] after %s %s: %s", st.fl, o.Verb, core.JSON(o.I), bad), map[string]any{"flavor": st.fl, "history": append(append([]op{}, done...), o), "what": bad})
+	} else if mixed > 0 {
+		run.CountN("acl-filtered-lists-checked-with-removals", mixed)
+	}
 	if e == "" && got == want {
 		return true, false
 	}
@@ -1592,6 +1634,8 @@ func TestZZVerifC13(t *testing.T) {
 	run.Extra("enumeration_space", space)
 	run.Extra("exhaustive", enumerated == space)
 
+	run.Floor("legacy-retarget-probes", 20)
+	run.Floor("acl-filtered-lists-checked-with-removals", 5000)
 	run.Floor("set_cases:"+flLegacy, 800)
 	run.Floor("set_cases:"+flLegacyAPI, 800)
 	run.Floor("set_cases:"+flCfg, 1000)
